@@ -32,6 +32,23 @@ GainOK(k, e, ec, mk, base, logged) ==
       ELSE /\ RLe(RSub(RQ(base + MinOf(act)), Tol), val) /\ RLe(val, RAdd(RQ(base + MaxOf(act)), Tol))     \* between smallest and largest consequent
            /\ (k \in 1..6 => Near(logged, RAdd(RQ(base), GainDelta(k, e, ec, Sets3, mk)))))
 
+\* the same rule stated over the memberships mue[i], muec[j] reported for each table entry (any kind of set):
+\* a set is active when its membership exceeds machine epsilon (logged as 0 otherwise)
+GainOKm(k, mue, muec, mk, base, logged) ==
+  LET n == Len(mue)
+      J(i, j) == Opr(k, RDy(mue[i]), RDy(muec[j]))
+      firing == {pr \in (1..n) \X (1..n) : mue[pr[1]][1] > 0 /\ muec[pr[2]][1] > 0 /\ (k \in 1..6 => J(pr[1], pr[2])[1] > 0)}
+      ps == SetToSeq(firing)
+      den == RSum([i \in 1..Len(ps) |-> J(ps[i][1], ps[i][2])], 1)
+      num == RSum([i \in 1..Len(ps) |-> RMul(J(ps[i][1], ps[i][2]), RQ(mk[ps[i][1]][ps[i][2]]))], 1)
+      act == {mk[pr[1]][pr[2]] : pr \in firing}
+      val == RVal(logged) IN
+  /\ logged[2] >= 0
+  /\ \A i \in 1..n : mue[i][2] >= 0 /\ muec[i][2] >= 0                     \* memberships at the chosen points are exact dyadics
+  /\ (IF act = {} THEN Near(logged, RQ(base))
+      ELSE /\ RLe(RSub(RQ(base + MinOf(act)), Tol), val) /\ RLe(val, RAdd(RQ(base + MaxOf(act)), Tol))
+           /\ (k \in 1..6 => Near(logged, RAdd(RQ(base), RDiv(num, den)))))
+
 RECURSIVE StepsOK(_, _, _, _)
 StepsOK(e, i, preverr, k) ==
   IF i > Len(e.steps) THEN TRUE
@@ -63,6 +80,13 @@ Accept(e) ==
          /\ StepsOK(e, 1, Zero, e.opr)
          /\ e.outs = e.outs_after_zero                                               \* zeroing = freshly initialised
          /\ e.canary = 1                                                             \* scratch buffer of the documented size not overrun
+    [] e.f = "fpidk" ->
+         /\ \A i \in 1..Len(e.steps) :
+               LET s == e.steps[i] IN
+               /\ GainOKm(e.opr, s.mue, s.muec, MKP, e.base[1], s.kp) /\ GainOKm(e.opr, s.mue, s.muec, MKI, e.base[2], s.ki)
+               /\ GainOKm(e.opr, s.mue, s.muec, MKD, e.base[3], s.kd)
+               /\ Fin(s.out) /\ DLe(e.lim_codes[1], s.out) /\ DLe(s.out, e.lim_codes[2])
+         /\ e.canary = 1
     [] e.f = "npid" ->
          /\ \A i \in 1..Len(e.outs) : Fin(e.outs[i]) /\ DLe(e.lim_codes[1], e.outs[i]) /\ DLe(e.outs[i], e.lim_codes[2])
          /\ \A i \in 1..Len(e.weights) : \A j \in 1..3 : Fin(e.weights[i][j])
